@@ -30,7 +30,7 @@ def line(op):
     if k in ("announce", "withdraw"):
         return f"{k} {op['v']} {op['cut']}"
     if k == "end":
-        return "end"
+        return f"end {op['how']}"
     return f"{k} {op['cut']}"
 
 
